@@ -72,16 +72,16 @@ type Violation struct {
 
 // Result is what one child process observed.
 type Result struct {
-	Evaluations  int64            `json:"evaluations"`
-	Distinct     []uint64         `json:"distinct"`
-	Samples      []any            `json:"samples"`
-	Violations   []*Violation     `json:"violations"`
-	Inconclusive map[string]int64 `json:"inconclusive"`
-	Obs          map[string]int64 `json:"obs"`
-	ObsMax       map[string]int64 `json:"obs_max"`
+	Evaluations  int64               `json:"evaluations"`
+	Distinct     []uint64            `json:"distinct"`
+	Samples      []any               `json:"samples"`
+	Violations   []*Violation        `json:"violations"`
+	Inconclusive map[string]int64    `json:"inconclusive"`
+	Obs          map[string]int64    `json:"obs"`
+	ObsMax       map[string]int64    `json:"obs_max"`
 	Sets         map[string][]string `json:"sets"`
-	Notes        []string         `json:"notes"`
-	Completed    bool             `json:"completed"`
+	Notes        []string            `json:"notes"`
+	Completed    bool                `json:"completed"`
 }
 
 // Ctx is handed to a property's Run function inside a child.
@@ -94,14 +94,14 @@ type Ctx struct {
 	Mode    string
 	OutDir  string
 
-	mu       sync.Mutex
-	res      Result
-	distinct map[uint64]struct{}
-	viol     map[string]*Violation
-	sets     map[string]map[string]struct{}
-	journal  *os.File
+	mu         sync.Mutex
+	res        Result
+	distinct   map[uint64]struct{}
+	viol       map[string]*Violation
+	sets       map[string]map[string]struct{}
+	journal    *os.File
 	maxSamples int
-	flushMu  sync.Mutex
+	flushMu    sync.Mutex
 }
 
 // Exclusive runs f while the periodic result flush is held off (for
